@@ -1,6 +1,9 @@
 import MlModel.Lemmas.Registry
 import MlModel.Lemmas.OwnerExit
 import MlModel.Lemmas.OwnerEnv
+import MlModel.Lemmas.OwnerComposite
+import MlModel.Lemmas.OwnerShared
+import MlModel.Lemmas.OwnerFin
 /-!
 # C20 — worker liveness and ownership bookkeeping stays consistent
 
@@ -205,6 +208,25 @@ theorem C20_released_on_exit (pw : Owner.Pid → List Owner.Wid) (p : Owner.Pid)
   have := hE.todo [] htodo w hw hl.2
   simp at this
 
+/-- **Released on exit, for a pool that several threads drive.**  Thread `t` is the only thread that *acquires* for pool
+`p`; any number of other threads may drive `p` concurrently with operations that do not acquire (`release_all`,
+`Worker.release`, `idle_workers`, `workers`, `call`, `next_idle_worker(maybe_acquire=False)`, further finalisers) and
+everything for other pools.  Whenever `t` has just left the `finally: release_all()` of `p`, the pool has no acquired
+worker.  (Strictly stronger than `C20_released_on_exit`, whose hypothesis implies this one.  If another thread of the same
+pool acquires concurrently the statement is false — and should be: `Witness.C20_exit_shared_acquirer`.) -/
+theorem C20_released_on_exit_shared (pw : Owner.Pid → List Owner.Wid) (p : Owner.Pid) (t : Owner.Tid)
+    (c0 c : Owner.Cfg) (h0 : Owner.Init c0)
+    (hacq : ∀ t', t' ≠ t → ∀ op ∈ (c0.T t').script, op.pool = p → op.mayAcq = false)
+    (hr : Owner.Reach pw c0 c) (hidle : (c.T t).cur = none) (hex : (c.T t).exited = some p) :
+    Owner.acquiredWorkers pw c.W p = [] := by
+  have hE := Owner.ExitInvS_reach (p := p) (t := t) h0 hacq hr
+  have htodo : (c.T t).todo p = some [] := by simp [Owner.Thread.todo, hidle, hex]
+  simp only [Owner.acquiredWorkers, List.filter_eq_nil_iff]
+  intro w hw hl
+  simp only [Owner.isLocked, Bool.and_eq_true, beq_iff_eq] at hl
+  have := hE.todo [] htodo w hw hl.2
+  simp at this
+
 /-- **Released on exit, for every liveness assignment.**  The same statement over explicit schedules:
 every entry of `sched` carries the capacity/liveness assignment `u : Wid → Bool` in force at that
 step, chosen adversarially and independently at every step — workers may die or revive before,
@@ -304,6 +326,16 @@ theorem C20_sched_released_on_exit (pw : Owner.Pid → List Owner.Wid) (p : Owne
   exact C20_released_on_exit pw p t x0.base x.base h0 hsole
     (OwnerEnv.XReach_base (OwnerEnv.XReach_xrun ts x0 .refl)) hidle hex
 
+/-- **Released on exit under every schedule, pool shared by several threads** (`t` the only acquirer for `p`). -/
+theorem C20_sched_released_on_exit_shared (pw : Owner.Pid → List Owner.Wid) (p : Owner.Pid) (t : Owner.Tid)
+    (x0 : OwnerEnv.X) (h0 : Owner.Init x0.base)
+    (hacq : ∀ t', t' ≠ t → ∀ op ∈ (x0.base.T t').script, op.pool = p → op.mayAcq = false) (ts : List Owner.Tid) :
+    let x := OwnerEnv.xrun pw x0 ts
+    (x.base.T t).cur = none → (x.base.T t).exited = some p → Owner.acquiredWorkers pw x.base.W p = [] := by
+  intro x hidle hex
+  exact C20_released_on_exit_shared pw p t x0.base x.base h0 hacq
+    (OwnerEnv.XReach_base (OwnerEnv.XReach_xrun ts x0 .refl)) hidle hex
+
 /-- **Dead stays dead, under every schedule.**  Once the entry of `a` is dead, along any interleaving of
 pool threads (whose `is_alive` folds finished calls into the registry — `refresh` with the *send* time of
 late replies) and environment threads in which no executed step performs a `register a` (no `revive a`,
@@ -366,6 +398,74 @@ theorem C20_sched_registry_events (pw : Owner.Pid → List Owner.Wid) (x x' : Ow
     (hs : OwnerEnv.xstep? pw x t = some x') :
     x'.env.reg = Registry.run x.env.reg (OwnerEnv.regEvents x t) :=
   OwnerEnv.xstep_reg hs
+
+/-! ## The composite operations as programs: `WorkerPool.run` and `call_and_wait`, step by step (round 6)
+
+In the product LTS the two operations are executed by a controller (`OwnerEnv.Ctl`): between two *pieces* (primitive
+operations of the ownership LTS: `aliveWorkers`, `nextIdle`, `submitW`, `acquireAllCall`, `finalize`) it stops at the
+operation's own yield points — clock reads, sleeps, `futures.wait`, the `done()` polls of `courier_worker.wait` — where the
+spin loops decide, from the clock and from what the environment delivered, whether to go round again.  The harness replays the
+real `WorkerPool.run` / `call_and_wait` against exactly this (family `schedc`).  The theorems say that the `finally:` cannot be
+by-passed and that when it ends nothing is left acquired — for every schedule, every clock behaviour, every fate of the replies. -/
+
+/-- **Inside a piece the controller does not move**; the outcome of a composite operation is recorded only by the step
+that ends its last piece: the finaliser (`fin p o` ↦ `o`), or — for a `run` that failed in `wait_until_alive()` before its
+`try:` — the error message (`rErr` ↦ `notStarted`); a `Worker.submit` on its own (`sSub`, what `as_completed` calls; it acquires
+and releases nothing) returns `ok` as soon as its call has been made. -/
+theorem C20_sched_outcome_only_at_end (pw : Owner.Pid → List Owner.Wid) (x x' : OwnerEnv.X) (t : Owner.Tid)
+    (cl : Owner.Call) (k : Owner.K) (hcur : (x.base.T t).cur = some (cl, k)) (h : OwnerEnv.xstep? pw x t = some x') :
+    (x'.env.ctl t = x.env.ctl t ∧ x'.env.outs t = x.env.outs t) ∨
+    ((x'.base.T t).cur = none ∧ x'.env.ctl t = .idle ∧
+      ((∃ p o, x.env.ctl t = .fin p o ∧ x'.env.outs t = x.env.outs t ++ [o]) ∨
+       (∃ p, x.env.ctl t = .rErr p ∧ x'.env.outs t = x.env.outs t ++ [.notStarted]) ∨
+       (∃ p b w, x.env.ctl t = .sSub p b w ∧ x'.env.outs t = x.env.outs t ++ [.ok]))) :=
+  OwnerEnv.xstep_ctl_inCall hcur h
+
+/-- **Every way out of the `try:` goes through the `finally:`.**  A thread whose controller is inside the `try:` of
+`run` / `call_and_wait` and that is between two pieces (it has found no worker yet, it is about to sleep, to read the
+clock, to wait for a reply …) moves to another point of the `try:`, or starts the finaliser, or — only when the
+finaliser has no worker to look at and ends at once — records an outcome different from `notStarted`.  In particular the
+time-outs (`ValueError('No worker is available.')` after 180 s, `RuntimeError` of a worker that disconnected), a task that
+raised and an error reply all lead to `Ctl.fin`. -/
+theorem C20_sched_try_exits_through_finally (pw : Owner.Pid → List Owner.Wid) (x x' : OwnerEnv.X) (t : Owner.Tid)
+    (hcur : (x.base.T t).cur = none) (htry : (x.env.ctl t).inTry = true) (h : OwnerEnv.xstep? pw x t = some x') :
+    (x'.env.ctl t).inTry = true ∨ (∃ p o, x'.env.ctl t = .fin p o) ∨
+    (x'.env.ctl t = .idle ∧ ∃ o, o ≠ .notStarted ∧ x'.env.outs t = x.env.outs t ++ [o] ∧ (x'.base.T t).cur = none) :=
+  OwnerEnv.xstep_try hcur htry h
+
+/-- Before the `try:` (`run`'s `wait_until_alive()`) the controller stays there, enters the `try:`, or the operation ends
+as *not started* — the one documented way in which `run` raises without running its `finally:`. -/
+theorem C20_sched_not_started_only_before_try (pw : Owner.Pid → List Owner.Wid) (x x' : OwnerEnv.X) (t : Owner.Tid)
+    (hcur : (x.base.T t).cur = none) (hpre : (x.env.ctl t).preTry = true) (h : OwnerEnv.xstep? pw x t = some x') :
+    (x'.env.ctl t).preTry = true ∨ (x'.env.ctl t).inTry = true ∨
+    (x'.env.ctl t = .idle ∧ x'.env.outs t = x.env.outs t ++ [.notStarted]) :=
+  OwnerEnv.xstep_pretry hcur hpre h
+
+/-- **Released when `run` / `call_and_wait` returns or raises, under every schedule.**  Thread `t` is the only thread that
+acquires for pool `p` (others may release, call, poll `idle_workers` for it); initially no thread is inside a composite
+operation.  In any reachable configuration of the product in which `t`'s controller is in the finaliser of a composite
+operation of `p` (`Ctl.fin p o`: `o` is what the operation will return or raise — by
+`C20_sched_try_exits_through_finally` the only way out of its `try:`), the step that ends the operation — the controller
+becomes idle — leaves pool `p` without any acquired worker, and records `o`.  Deaths, revivals, heartbeats, clock ticks
+past the deadlines, late / failed / missing replies interleaved anywhere make no difference.  (That `Ctl.fin` is only held
+inside `release_all` of the ownership LTS is an invariant of the product: `OwnerEnv.FinOK_reach`.) -/
+theorem C20_sched_composite_released (pw : Owner.Pid → List Owner.Wid) (p : Owner.Pid) (t : Owner.Tid)
+    (x0 x x' : OwnerEnv.X) (h0 : Owner.Init x0.base) (hctl0 : ∀ t, x0.env.ctl t = .idle)
+    (hacq : ∀ t', t' ≠ t → ∀ op ∈ (x0.base.T t').script, op.pool = p → op.mayAcq = false)
+    (hr : OwnerEnv.XReach pw x0 x) (o : OwnerEnv.Outc) (hctl : x.env.ctl t = .fin p o)
+    (hs : OwnerEnv.xstep? pw x t = some x') (hidle : x'.env.ctl t = .idle) :
+    Owner.acquiredWorkers pw x'.base.W p = [] ∧ x'.env.outs t = x.env.outs t ++ [o] := by
+  obtain ⟨cl, rest, hcur⟩ := OwnerEnv.FinOK_reach hctl0 hr t p o hctl
+  obtain ⟨hnone, hex, hout⟩ := OwnerEnv.xstep_fin_exit hctl hcur hs hidle
+  exact ⟨C20_released_on_exit_shared pw p t x0.base x'.base h0 hacq
+    (OwnerEnv.XReach_base (OwnerEnv.XReach.step hr hs)) hnone hex, hout⟩
+
+/-- The controller is in `Ctl.fin p o` only while the thread is inside the finaliser `release_all()` of `p` in the
+ownership LTS — in every reachable configuration. -/
+theorem C20_sched_fin_inside_finaliser (pw : Owner.Pid → List Owner.Wid) (x0 x : OwnerEnv.X)
+    (hctl0 : ∀ t, x0.env.ctl t = .idle) (hr : OwnerEnv.XReach pw x0 x) (t : Owner.Tid) (p : Owner.Pid) (o : OwnerEnv.Outc)
+    (hctl : x.env.ctl t = .fin p o) : ∃ cl rest, (x.base.T t).cur = some (cl, .relAll p rest true) :=
+  OwnerEnv.FinOK_reach hctl0 hr t p o hctl
 
 /-! ## Non-vacuity: the hypotheses are satisfiable and the conclusions are reached -/
 
@@ -430,6 +530,36 @@ example : ((OwnerEnv.xrun pw1 xcfg ([1, 1, 1] ++ List.replicate 40 0)).base.T 0)
 /-- no step of that schedule registers worker 0 (hypothesis of `C20_sched_dead_stays_dead`) -/
 example : OwnerEnv.NoRegister pw1 0 (OwnerEnv.xrun pw1 xcfg [1, 1, 1]) [0, 0, 0, 1] := by
   simp only [OwnerEnv.NoRegister]; decide
+
+/-- hypothesis of `C20_released_on_exit_shared`: thread 1 drives the same pool 0 with non-acquiring operations -/
+example : ∀ op ∈ ([.releaseAll 0 [], .idleWorkers 0, .callW 0 1, .nextIdle 0 [0, 1] false, .acquireAll 1 [0] 0] : List Op),
+    op.pool = 0 → op.mayAcq = false := by decide
+
+/-! composite operation: thread 0 = `pool.run(task)` for pool 0 over worker 0 (alive), with the script of pieces its
+controller will ask for; thread 1 = the transport delivering the reply.  Thread 0 runs until it waits for the reply
+(`futures.wait`: blocked — the extra entries of the schedule are skipped), the reply is delivered, thread 0 runs its `finally:`. -/
+open OwnerEnv in
+def rcfg : X :=
+  ⟨⟨fun _ => {}, fun t => if t = 0 then { script := [.aliveWorkers 0 false, .nextIdle 0 [0] true, .submitW 0 0 0, .finalize 0] } else {}⟩,
+   { reg := fun a => if a = 0 then some (some 1000) else none, now := 1000, thr := 100,
+     prog := fun t => if t = 0 then [.run 0 false] else [],
+     escript := fun t => if t = 1 then [.deliver 0 false] else [] }⟩
+def rsched1 : List Tid := List.replicate 40 0
+def rsched2 : List Tid := List.replicate 40 0 ++ [1] ++ List.replicate 30 0
+
+set_option maxRecDepth 20000 in
+/-- waiting for the reply: the worker is acquired by pool 0, the controller is inside the `try:` (test by evaluation) -/
+example : ((OwnerEnv.xrun pw1 rcfg rsched1).base.W 0).pool = some 0 ∧
+    (OwnerEnv.xrun pw1 rcfg rsched1).env.ctl 0 = .rSub 0 false 0 := by decide
+example : ∀ t, rcfg.env.ctl t = .idle := fun _ => rfl
+set_option maxRecDepth 20000 in
+/-- in the middle of the `finally:` the controller is `fin 0 ok` (hypothesis `hctl` of `C20_sched_composite_released`) -/
+example : (OwnerEnv.xrun pw1 rcfg (List.replicate 40 0 ++ [1] ++ List.replicate 4 0)).env.ctl 0 = .fin 0 .ok := by decide
+set_option maxRecDepth 20000 in
+/-- after the reply and the `finally:`: outcome `ok`, nothing acquired, exit marker set (test by evaluation) -/
+example : (OwnerEnv.xrun pw1 rcfg rsched2).env.outs 0 = [.ok] ∧
+    acquiredWorkers pw1 (OwnerEnv.xrun pw1 rcfg rsched2).base.W 0 = [] ∧
+    ((OwnerEnv.xrun pw1 rcfg rsched2).base.T 0).exited = some 0 := by decide
 
 end NonVacuity
 
